@@ -130,6 +130,8 @@ fn main() {
     let (mut n_streams, mut n_frames, mut n_alone, mut n_clean, mut n_garbage, mut n_seg, mut cases) = (0usize, 0usize, 0usize, 0usize, 0usize, 0usize, 0usize);
     let mut garbage_kinds: BTreeMap<u64, usize> = BTreeMap::new();
     let mut lost_with_synclike = 0usize;
+    let mut garbage_cases = 0usize;
+    let max_garbage_cases = scale(if thorough { 2500 } else { 400 });
     let mut garbage_with_valid_frame = 0usize;
     let mut params_seen: BTreeMap<String, usize> = BTreeMap::new();
 
@@ -230,6 +232,10 @@ fn main() {
             }
             n_garbage += 1;
             *garbage_kinds.entry(gk).or_insert(0) += 1;
+            if garbage_cases < max_garbage_cases && stream.len() < 3000 && w.frames.iter().map(|f| f.samples.len()).sum::<usize>() <= MODEL_MAX_SAMPLES {
+                garbage_cases += 1;
+                out.case(dec_subset_case(&stream, &[("src", esc("garbage")), ("garbage_kind", gk.to_string())]));
+            }
             let sg = if rng.chance(1, 2) { vec![] } else { let unit = rng.range(1, 30) as usize; chunking(&mut rng, stream.len(), 2, unit) };
             let (got, errs, panic, exhausted) = run_subset_resync(ChunkedReader::new(&stream, &sg), stream.len() + 8);
             let input: Vec<(&str, String)> = vec![("bytes", esc(&hex(&stream[..stream.len().min(8000)]))), ("frame_offsets", ints(&frame_pos)), ("garbage_kind", gk.to_string()), ("chunks", ints(&sg[..sg.len().min(64)]))];
@@ -274,7 +280,7 @@ fn main() {
             ("t", esc("stat")), ("profile", esc(profile())), ("streams", n_streams.to_string()), ("frames", n_frames.to_string()), ("frames_alone", n_alone.to_string()),
             ("clean_concatenations", n_clean.to_string()), ("segmentations", n_seg.to_string()), ("garbage_streams", n_garbage.to_string()),
             ("garbage_kinds", format!("{{{}}}", garbage_kinds.iter().map(|(k, v)| format!("\"{}\":{}", k, v)).collect::<Vec<_>>().join(","))),
-            ("streams_losing_frames_to_synclike_garbage", lost_with_synclike.to_string()), ("garbage_streams_containing_a_valid_frame", garbage_with_valid_frame.to_string()), ("frame_params", m(&params_seen)), ("cases_emitted", out.cases.to_string()),
+            ("streams_losing_frames_to_synclike_garbage", lost_with_synclike.to_string()), ("garbage_streams_containing_a_valid_frame", garbage_with_valid_frame.to_string()), ("frame_params", m(&params_seen)), ("cases_emitted", out.cases.to_string()), ("garbage_cases_emitted", garbage_cases.to_string()),
             ("viols", out.viols.to_string()), ("viol_keys", out.counts()),
         ])
     );
